@@ -7,7 +7,7 @@ import os, re, shutil, subprocess, time, json
 from common import *
 
 TOOLCHAIN_NATIVE = "1.74.0"
-MEM_KB = 14_000_000
+MEM_KB = 30_000_000
 
 
 class H:
@@ -106,6 +106,9 @@ def run_group(group, harnesses, tier, hooks=False, stubbing=False, jobs=None, ex
            "-Z", "unstable-options", "--harness-timeout", f"{tmax}s", "--exact"]
     if stubbing:
         cmd += ["-Z", "stubbing"]
+    # CBMC's float NaN/overflow checks have no Rust counterpart (no panic); Rust's own integer-overflow
+    # panics are explicit MIR assertions (dev profile) and stay checked.
+    cmd += ["--no-overflow-checks"]
     cmd += list(extra_args)
     for h in hs:
         cmd += ["--harness", f"{group_mod(h)}"]
@@ -234,6 +237,7 @@ def replay_failure(group, h, o, hooks, stubbing, extra_args):
            "--concrete-playback=print", "-Z", "unstable-options", "--harness-timeout", f"{h.timeout * 2}s"]
     if stubbing:
         cmd += ["-Z", "stubbing"]
+    cmd += ["--no-overflow-checks"]
     cmd += list(extra_args)
     with open(logp, "w") as lf:
         subprocess.run(["bash", "-c", f"ulimit -v {MEM_KB}; exec \"$@\"", "x"] + cmd, cwd=crate_dir(group),
